@@ -22,13 +22,13 @@ import (
 var errStop = errors.New("verif: callback sentinel")
 
 type c05Replay struct {
-	Kind   string     `json:"kind"`
-	Doc    string     `json:"doc"`
-	Fmt    model.Fmt4 `json:"fmt"`
-	Route  string     `json:"route"`
-	StopAt int        `json:"stop_at"`
-	ErrKind string    `json:"err_kind,omitempty"`
-	Extra   string    `json:"extra_options,omitempty"`
+	Kind    string     `json:"kind"`
+	Doc     string     `json:"doc"`
+	Fmt     model.Fmt4 `json:"fmt"`
+	Route   string     `json:"route"`
+	StopAt  int        `json:"stop_at"`
+	ErrKind string     `json:"err_kind,omitempty"`
+	Extra   string     `json:"extra_options,omitempty"`
 }
 
 // options that do not concern a walk
